@@ -352,6 +352,8 @@ def r5_component_alpha_siblings(ck, P):
             return sig(f, x.a[0], d + 1)
         if x.op == 'phi':
             return 'phi(' + ','.join(sorted(sig(f, a, d + 1) for a in x.a)) + ')'
+        if x.op == 'call':
+            return '(call %s %s)' % (x.callee, ' '.join(sig(f, a, d + 1) for a in x.a))
         parts = [sig(f, a, d + 1) for a in x.a]
         if x.op in ('and', 'or', 'add', 'mul', 'xor'):
             parts.sort()
@@ -368,8 +370,9 @@ def r5_component_alpha_siblings(ck, P):
             if cc is None or cc.op != 'icmp':
                 continue
             sg = '%s %s' % (pred, ' '.join(sorted(sig(f, o) for o in ops)))
-            if 'F' not in sg or not ('(and' in sg or '(lshr' in sg):
-                continue                       # not a test of bit fields of the format code
+            import re as _re
+            if 'F' not in sg or not ('(and' in sg or '(lshr' in sg or _re.search(r'\(call \w+ F\)', sg)):
+                continue                       # not a test of bit fields of the format code (directly or through a predicate helper of the format alone)
             taken_true = t.d['succ'][0] == s_
             g.add(('' if taken_true else 'not ') + sg)
         sigs.append(frozenset(g))
